@@ -583,7 +583,7 @@ fn main() {
                     r["reser"] = json!(Value::try_from_serializable(&value).map(|v2| v2 == value).unwrap_or(false));
                     // Context construction paths agree (top-level structs only)
                     if let Term::Struct(_, fs) = &term {
-                        let src: String = fs.iter().map(|(k, _)| format!("{{% if {k} is defined %}}{{{{ {k} }}}}{{% endif %}}|")).collect();
+                        let src: String = fs.iter().map(|(k, _)| format!("{{{{ {k} is defined }}}}:{{% if {k} is defined %}}{{{{ {k} is none }}}}:{{{{ {k} }}}}{{% endif %}}|")).collect();
                         let a = Context::from_serialize(&term).ok().map(|c| tera.render_str(&src, &c, false).map_err(|e| format!("{e}")));
                         let mut c2 = Context::new();
                         let mut c3 = Context::new();
